@@ -72,11 +72,31 @@ def finite_members():
     return mem
 
 
+_EVAL_BUF = {}
+_EVAL_FV = {}
+
+
 def real_eval(p, x, constraint=None):
     """value of the objective (constraint=None) or of constraint number `constraint` through the real Calculate"""
     from iOpt.trial import Point, FunctionValue, FunctionType
-    arr = np.array(x, dtype=np.double)
-    fv = FunctionValue() if constraint is None else FunctionValue(FunctionType.CONSTRAINT, constraint)
+    # the caller's coordinate buffer: ONE ndarray per problem object, overwritten in place with each new point (an evaluation must
+    # be answered for what the array holds now, whatever it held at the previous call)
+    ent = _EVAL_BUF.get(id(p))
+    if ent is None or ent[0] is not p or len(ent[1]) != len(x):
+        if len(_EVAL_BUF) > 4096:
+            _EVAL_BUF.clear()
+        ent = _EVAL_BUF[id(p)] = (p, np.array(x, dtype=np.double))
+    arr = ent[1]
+    arr[:] = x
+    # ... and the caller's value holder: one FunctionValue per (problem, function), reused, holding a stale number from before
+    hk = (id(p), constraint)
+    hent = _EVAL_FV.get(hk)
+    if hent is None or hent[0] is not p:
+        if len(_EVAL_FV) > 8192:
+            _EVAL_FV.clear()
+        hent = _EVAL_FV[hk] = (p, FunctionValue() if constraint is None else FunctionValue(FunctionType.CONSTRAINT, constraint))
+    fv = hent[1]
+    fv.value = 12345.678
     out = p.Calculate(Point(arr, []), fv)
     return float(out.value)
 
